@@ -1,5 +1,5 @@
 (* C15 - Decimal128 conversions are exact within the declared precision and scale. *)
-From Verif Require Import DecimalCodec DecimalCodec_proofs DecimalExact_proofs.
+From Verif Require Import DecimalCodec DecimalCodec_proofs DecimalExact_proofs DecimalFormat_proofs.
 
 (* Full-strength statement (kept visible; the parts proved so far are below, the remainder is
    evaluated as the specification oracle `RunC15.oracle` on every implementation output):
@@ -27,6 +27,23 @@ Theorem C15_format_no_panic : forall v s,
   (- 2 ^ 127 <= v < 2 ^ 127)%Z -> (-128 <= s <= 127)%Z -> forall k, format_decimal v s <> Panic k.
 Proof. exact format_decimal_np. Qed.
 
+(* reading a column: for every 128-bit value and every scale the printed text exists, is a plain decimal
+   numeral (sign? digits ('.' digits)?), and is numerically equal to value * 10^(-scale): with
+   numeral = (+/-) digits(int ++ frac) / 10^|frac|, cross-multiplied (numeral_eq); value_scaled = v says the
+   same through the truncating specification of the writer (nothing is lost at this scale) *)
+Theorem C15_format_total : forall v s, (- 2 ^ 127 <= v < 2 ^ 127)%Z -> (-128 <= s <= 127)%Z ->
+  exists t, format_decimal v s = Ok t.
+Proof. exact format_decimal_total. Qed.
+
+Theorem C15_format_exact : forall v s t, format_decimal v s = Ok t ->
+  exists n, denote t = Some n /\ value_scaled s n = v /\ numeral_eq n v s.
+Proof. exact format_exact. Qed.
+
+(* what is read parses back to the stored value, in every column whose precision can hold it *)
+Theorem C15_format_parse_roundtrip : forall p s v t, p <= 38 -> (Z.abs v < 10 ^ Z.of_nat p)%Z ->
+  format_decimal v s = Ok t -> parse_decimal128 p s t = Ok v.
+Proof. exact format_parse_roundtrip. Qed.
+
 (* a stored value never needs more digits than the precision: strings and floats alike *)
 Theorem C15_parse_within_precision : forall p s t v,
   parse_decimal128 p s t = Ok v -> (Z.abs v < 10 ^ Z.of_nat p)%Z.
@@ -53,6 +70,9 @@ Example C15_examples :
 Proof. vm_compute. repeat split; reflexivity. Qed.
 
 Print Assumptions C15_full_proved.
+Print Assumptions C15_format_total.
+Print Assumptions C15_format_exact.
+Print Assumptions C15_format_parse_roundtrip.
 Print Assumptions C15_parse_no_panic.
 Print Assumptions C15_format_no_panic.
 Print Assumptions C15_parse_within_precision.
